@@ -31,6 +31,10 @@ class GotranPythonCodePrinter(PythonCodePrinter):
     _kc = {k: f"numpy.{v.replace('math.', '')}" for k, v in PythonCodePrinter._kc.items()}
 
     def _hprint_Pow(self, expr, rational=False, sqrt="numpy.sqrt"):
+        if expr.base.is_number and expr.base.is_integer and not expr.exp.is_number:
+            # An integer raised to an array of integers (e.g. 10**numpy.where(c, -3, 2))
+            # is integer arithmetic in numpy, which refuses negative exponents
+            expr = sympy.Pow(sympy.Float(int(expr.base)), expr.exp, evaluate=False)
         return super()._hprint_Pow(expr, rational, sqrt)
 
     def _print_MatrixElement(self, expr):
